@@ -18,11 +18,16 @@ META = dict(
          "per-secret hit counters and its 24 h reset are state, TLC checks that the try-order can never change the "
          "verdict and enumerates every request sequence (every single token of the full product, all sequences of "
          "2-3 (thorough 4) requests over a representative class set with a 25 h clock advance anywhere). "
+         "Concurrent stage: 8 goroutines (GOMAXPROCS 8) replay all "
+         "3-request sequences over mostly valid cur/prev tokens at once against ONE transition route (>= 30k requests "
+         "quick, >= 150k thorough), each request judged by its own step and its own (unique) claims. "
          "AuthSig.tla: full product of method x fingerprint x secret x timestamp offset (exact tolerance "
          "boundaries) x every set of <= 1 (thorough 2) fields altered after signing x body delivery (known "
          "Content-Length, unknown length on the recorder, chunked over a real loopback connection). AuthRpc.tla: strict/lenient x "
-         "store ok/failing x every sequence of 2 (thorough 3) calls over app/token present/empty/absent/"
-         "matching/differing, unary and stream. Every behaviour is executed on the real code: api.Server routes "
+         "a store that changes between calls (token stored / replaced / deleted, store down / up again) x every "
+         "sequence of up to 3 calls over app/token present/empty/absent/matching/differing, unary and stream; a call "
+         "may be judged by the store as it is now or by a token seen at an earlier successful lookup (a cache), "
+         "never by an earlier failure. Every behaviour is executed on the real code: api.Server routes "
          "bound by the engine (real JWTs minted with golang-jwt, real RSA/HMAC X-Content-Security headers built "
          "from the wire protocol), auth.Authenticator over miniredis behind the real interceptors; handler-ran, "
          "status and context claims are compared with the specification.",
@@ -30,7 +35,7 @@ META = dict(
          "(a real loopback listener only for the signature cases delivered 'wire'). Not covered: non-strict signature mode and methods other than GET/POST/PUT/DELETE "
          "(the statement is about strict mode and these methods), encrypted bodies (type=1, CryptoHandler), the "
          "X-Request-Uri override, unauthorized/unsigned callbacks, a bare token without 'Bearer ' prefix, iat in "
-         "the future, store content changing while cached (the 5-minute cache makes 'the stored token' ambiguous), "
+         "the future, expiry of the authenticator's 5-minute cache (its timing wheel runs on a real ticker), "
          "real redis connection loss (the failing store answers every command with an error). A token without any "
          "time claim may be admitted or rejected (statement silent). Signature timestamps use the real clock: "
          "offsets are computed immediately before the request and the request is repeated if the second changed.",
@@ -53,11 +58,12 @@ def mc(ctx):
     K = dict(MaxTamper=2)
     cfg = core.render_cfg(spec="Spec", constants=K, invariants=["AnyTamperDenied", "HonestPasses", "OutsideToleranceDenied", "TransportIrrelevant"])
     ctx.tlc("AuthSig", cfg, constants=K, name="AuthSig-mc", workers=W)
-    K = dict(MaxCalls=3, Kinds='{"unary","stream"}')
+    K = dict(MaxCalls=3, MaxEnv=2, Kinds='{"unary","stream"}', CallSet="AllCalls")
     cfg = core.render_cfg(spec="Spec", constants=K, view="core",
-                          invariants=["MissingMetadataRejected", "MatchAdmitted", "DifferRejected",
-                                      "LenientOnlyWhenNotStrict", "CacheIrrelevant"])
-    ctx.tlc("AuthRpc", cfg, constants=K, name="AuthRpc-mc", workers=W)
+                          invariants=["MissingMetadataRejected", "FreshMatchAdmitted", "FreshDifferRejected",
+                                      "LenientOnlyWhenNotStrict", "ErrorsAreNotRemembered", "StrictNeverLenient"])
+    r = ctx.tlc("AuthRpc", cfg, constants=K, name="AuthRpc-mc", workers=W, coverage=True)
+    ctx.check_coverage(r, ["Call", "SetToken", "Toggle"])
 
 
 def gen(ctx, module, name, K, simulate=None, depth=None):
@@ -79,7 +85,11 @@ def run(ctx):
         ("jwt2", "AuthJwtGen", dict(Tokens="CoreTokens", Cfgs=CFGS, MaxReq=2), api),
         ("jwt3", "AuthJwtGen", dict(Tokens=("FewTokens" if q else "CoreTokens"), Cfgs=CFGS, MaxReq=3), api),
         ("sig", "AuthSigGen", dict(MaxTamper=(1 if q else 2)), api),
-        ("rpc", "AuthRpcGen", dict(MaxCalls=(2 if q else 3), Kinds=('{"unary","stream"}')), rpc),
+        # single calls over the full metadata product, then sequences with the store changing in between
+        ("rpc1", "AuthRpcGen", dict(MaxCalls=1, MaxEnv=0, Kinds='{"unary","stream"}', CallSet="AllCalls"), rpc),
+        ("rpc2", "AuthRpcGen", dict(MaxCalls=2, MaxEnv=1, Kinds='{"unary","stream"}', CallSet="CoreCalls"), rpc),
+        ("rpc3", "AuthRpcGen", dict(MaxCalls=3, MaxEnv=2, Kinds=('{"unary"}' if q else '{"unary","stream"}'),
+                                    CallSet=("FewCalls" if q else "CoreCalls")), rpc),
     ]
     if not q:
         plans.insert(3, ("jwt4", "AuthJwtGen", dict(Tokens="FewTokens", Cfgs=CFGS, MaxReq=4), api))
@@ -96,6 +106,15 @@ def run(ctx):
     cases = gen(ctx, "AuthJwtGen", "jwtsim", K, simulate=(300 if q else 1000), depth=16)
     path, n = ctx.write_cases("jwtsim.ndjson", cases)
     ctx.replay(API_PKG, API_OV, API_RUN, path, label="jwtsim", shards=8, binp=api)
+    # concurrent stage: the same behaviours, many at once, against ONE route / parser
+    K = dict(Tokens="ConcTokens", Cfgs='{"transition"}', MaxReq=3)
+    cases = [c for c in gen(ctx, "AuthJwtGen", "jwtconc", K) if '"advance"' not in c]
+    path, n = ctx.write_cases("jwtconc.ndjson", cases)
+    need = 30000 if q else 150000
+    cnt, _ = ctx.replay(API_PKG, API_OV, "^TestVerifC04JwtConc$", path, label="jwtconc", shards=1, binp=api,
+                        gomaxprocs=8, env=dict(VERIF_CONC_G=8, VERIF_CONC_MIN=need))
+    if cnt.get("conc.requests", 0) < need:
+        raise core.Infra("concurrent JWT stage judged only %s requests" % cnt.get("conc.requests"))
     ctx.assumptions += [
         "JWT time claims are judged by golang-jwt against the real clock; tokens are minted +-1 h away from it",
         "signature timestamps: the request is repeated when the wall-clock second changed while it was served"]
@@ -103,6 +122,14 @@ def run(ctx):
 
 
 def replay(ctx, rp):
+    if (rp.get("key") or "").startswith("C04:jwt:concurrent"):
+        # a concurrent disagreement is re-executed as the whole stage, not as one behaviour
+        K = dict(Tokens="ConcTokens", Cfgs='{"transition"}', MaxReq=3)
+        cases = [c for c in gen(ctx, "AuthJwtGen", "jwtconc", K) if '"advance"' not in c]
+        path, _ = ctx.write_cases("jwtconc.ndjson", cases)
+        ctx.replay(API_PKG, API_OV, "^TestVerifC04JwtConc$", path, label="replay", gomaxprocs=8,
+                   env=dict(VERIF_CONC_G=8, VERIF_CONC_MIN=30000))
+        return
     path, _ = ctx.write_cases("replay.ndjson", [rp["case"]])
     if (rp.get("key") or "").startswith("C04:rpc"):
         ctx.replay(RPC_PKG, RPC_OV, RPC_RUN, path, label="replay")
